@@ -8,6 +8,12 @@
                          | partial_cmp a b | op_eq a b (`==`, derived PartialEq) | op_ne a b (`!=`)
                          | op_lt a b (`<`) | op_le a b | op_gt a b | op_ge a b
                          | hash_eq a b   (do `a` and `b` feed the hasher the same input?)
+                         | hash_routes a (the value rebuilt by other routes — `!!a`, `a+1-1`, rotations,
+                           `clone`, … — hashes like the `from_digits` one; spec `true`: equal values)
+                         | hash_set a b  (`HashSet` holding `a` contains `b`: hash equal ∧ `==`;
+                           spec: the values are equal)
+                         | hash_digits a (is the hasher fed exactly what hashing the digit array feeds
+                           it? model `true` = `derive(Hash)`; spec `*`: the property does not fix it)
     signed only        : signum a | is_positive a | is_negative a
   Answers: `true`/`false`; `Less`/`Equal`/`Greater`; `S(Less)`…; hex pattern; `P` (clamp, mn > mx).
   Spec answers compare the denoted integers (`valOf`: `U` for unsigned, `S` for signed) only.
@@ -69,6 +75,15 @@ def handle : Handler := fun c op args =>
   | "hash_eq", [a, b] =>
     bin (fun a b => showBool (Traits.hashWith id a == Traits.hashWith id b))
         (fun x y => if x = y then "true" else "*") a b
+  | "hash_routes", [a] => do
+    let a ← parseVal c a
+    some (showBool (Traits.hashWith id a == Traits.hashWith id a), "true")
+  | "hash_set", [a, b] =>
+    bin (fun a b => showBool (Traits.hashWith id a == Traits.hashWith id b && Traits.opEq a b))
+        (fun x y => showBool (x = y)) a b
+  | "hash_digits", [a] => do
+    let _ ← parseVal c a
+    some ("true", "*")
   | "min", [a, b] =>
     bin (fun a b => showVal c (CmpImpl.min cm a b)) (fun x y => showInt c (if x ≤ y then x else y)) a b
   | "max", [a, b] =>
